@@ -240,6 +240,10 @@ func EnumPathsOpt(from *ssa.BasicBlock, stop func(*ssa.BasicBlock) bool, limit i
 						atoms = append(atoms, e)
 					}
 				}
+				// facts imported from a helper whose verdict this branch tests
+				for _, x := range atoms[mark-1:] {
+					atoms = append(atoms, summaryAtoms(x)...)
+				}
 			}
 			walk(s)
 			if has {
